@@ -12,6 +12,7 @@ import (
 	"github.com/MixinNetwork/mixin/common"
 	"github.com/MixinNetwork/mixin/crypto"
 	"github.com/MixinNetwork/mixin/verifmc"
+	"github.com/MixinNetwork/mixin/verifmc/fixc"
 )
 
 // C17 — asset supply equals the value held in unconsumed outputs.
@@ -22,6 +23,7 @@ var c17Events = []string{
 	"deposit-btc-1", "deposit-btc-1000", "deposit-xin-13439", "deposit-xin-1",
 	"split-btc", "merge-btc", "submit-btc-0.5", "submit-btc-all", "claim-last-submit",
 	"mint-next-500", "pledge", "cancel", "refinalize-last-on-other-chain", "split-xin",
+	"admit-pending-spend-btc", "takeover-finalize-competitor", "finalize-pending",
 }
 
 type c17State struct {
@@ -132,6 +134,90 @@ func c17Apply(w *mcWallet, e int, replaying bool, report func(key, desc string))
 		}
 		tx = w.txCancel(w.Pledging)
 		after = func() { w.Pledging = nil }
+	case "admit-pending-spend-btc":
+		// ordinary admission without finalization: validate, lock, persist
+		if w.Pending != nil {
+			return false
+		}
+		tx = w.txSplit(common.BitcoinAssetId)
+		if tx == nil {
+			return false
+		}
+		if tx.Validate(w.L.Store, w.Time, false) != nil {
+			return false
+		}
+		if err := tx.LockInputs(w.L.Store, false); err != nil {
+			report("admit-lock-failed", err.Error())
+			return true
+		}
+		if err := w.L.Store.WriteTransaction(tx); err != nil {
+			report("admit-write-failed", err.Error())
+			return true
+		}
+		w.Pending, w.TakenOver = tx, false
+		if !replaying {
+			c17Check(w, report)
+		}
+		return true
+	case "takeover-finalize-competitor":
+		// a finalized snapshot carries a competitor of the pending spend: the
+		// finalization path takes the input over (fork lock) and is finalized
+		if w.Pending == nil || w.TakenOver {
+			return false
+		}
+		if _, snap, _ := w.L.Store.ReadTransaction(w.Pending.PayloadHash()); snap != "" {
+			return false
+		}
+		in := w.Pending.Inputs[0]
+		u, err := w.L.Store.ReadUTXOLock(in.Hash, in.Index)
+		if err != nil || u == nil {
+			return false
+		}
+		ctx := fixc.Transfer(common.BitcoinAssetId, []*common.Input{{Hash: in.Hash, Index: in.Index}}, []fixc.Out{{To: w.acct(), T: 1, Amount: u.Amount.String()}}, w.label("competitor"))
+		comp := w.sign(ctx)
+		var ferr error
+		p := verifmc.Catch(func() {
+			if ferr = comp.LockInputs(w.L.Store, true); ferr != nil {
+				return
+			}
+			_, ferr = w.L.Store.VerifFinalize(w.L.Net.NodeIds[w.Chain], w.Time, false, comp)
+		})
+		w.Time += 1e9
+		if p != nil || ferr != nil {
+			report("takeover-failed", fmt.Sprintf("finalization-path takeover of a pending spend failed: %v %v", p, ferr))
+			return true
+		}
+		w.TakenOver = true
+		w.LastFinal = comp
+		if !replaying {
+			c17Check(w, report)
+		}
+		return true
+	case "finalize-pending":
+		// a later snapshot names the pending transaction; the kernel skips
+		// validation and locking for transactions it finds in the store
+		if w.Pending == nil {
+			return false
+		}
+		body, snap, err := w.L.Store.ReadTransaction(w.Pending.PayloadHash())
+		if err != nil || body == nil || snap != "" {
+			return false // displaced (body pruned) or already final
+		}
+		var ferr error
+		p := verifmc.Catch(func() {
+			_, ferr = w.L.Store.VerifSnapshotOnly(w.L.Net.NodeIds[w.Chain], w.Time, w.Pending.PayloadHash())
+		})
+		w.Time += 1e9
+		if p != nil || ferr != nil {
+			report("finalize-pending-failed", fmt.Sprintf("%v %v", p, ferr))
+			return true
+		}
+		w.LastFinal = w.Pending
+		w.Pending = nil
+		if !replaying {
+			c17Check(w, report)
+		}
+		return true
 	case "refinalize-last-on-other-chain":
 		if w.LastFinal == nil {
 			return false
@@ -186,7 +272,7 @@ func c17Key(w *mcWallet) string {
 		parts = append(parts, fmt.Sprintf("%s/%x/%s/%v", a, u.Type, u.Amount, spent[fmt.Sprintf("%s:%d", u.Hash, u.Index)]))
 	}
 	sort.Strings(parts)
-	return strings.Join(parts, ",") + fmt.Sprintf("|x=%s b=%s sub=%v mint=%d pl=%v last=%v", w.RefTotal[common.XINAssetId], w.RefTotal[common.BitcoinAssetId], w.LastSubmit != nil, w.MintBatch, w.Pledging != nil, c17LastClass(w))
+	return strings.Join(parts, ",") + fmt.Sprintf("|x=%s b=%s sub=%v mint=%d pl=%v last=%v pend=%v/%v", w.RefTotal[common.XINAssetId], w.RefTotal[common.BitcoinAssetId], w.LastSubmit != nil, w.MintBatch, w.Pledging != nil, c17LastClass(w), w.Pending != nil, w.TakenOver)
 }
 
 func c17LastClass(w *mcWallet) string {
@@ -199,7 +285,7 @@ func c17LastClass(w *mcWallet) string {
 func TestMC_C17(t *testing.T) {
 	c := verifmc.Start(t, "C17", "model_checking")
 	defer c.Finish()
-	c.SetRule("BFS over all histories of real finalized one-transaction snapshots (deposit / split / merge / withdrawal submit / claim / mint / pledge / cancel / re-finalization on another chain) built by a deterministic wallet against the current state; canonical state = multiset of (asset,type,amount,spent) of all UTXO records + reference totals + pending flags; invariant evaluated in every state")
+	c.SetRule("BFS over all histories of real finalized one-transaction snapshots (deposit / split / merge / withdrawal submit / claim / mint / pledge / cancel / re-finalization on another chain / admission without finalization, finalization-path takeover by a competitor, later finalization of the pending spend) built by a deterministic wallet against the current state; canonical state = multiset of (asset,type,amount,spent) of all UTXO records + reference totals + pending flags; invariant evaluated in every state")
 	c.Assume("Badger transactions are atomic; snapshots are written directly on a genesis chain's head round (storage layer, no kernel round logic); the wallet's choice of inputs (smallest first) is part of the alphabet")
 	depth := verifmc.Pick(c, 5, 7)
 	b := &verifmc.BFS[*mcWallet]{
